@@ -365,7 +365,7 @@ func c10Jobs(thorough bool) []c10Job {
 		sort.Strings(predSyms)
 		decls := []string{"", "Decl bar(X) bound [/any].\n", "Decl bar(S) bound [.Struct</a: /number>].\nDecl foo(Y) bound [/any].\n", "Decl bar(S) bound [fn:List(/number)].\n"}
 		facts := []string{"bar(1).", "bar({/a: 1}).", "bar([1, 2]).", "bar(\"s\").", "bar(/a)."}
-		argPool := []string{"X", "1", "/a", "K", "\"s\"", "[X]", "_"}
+		argPool := []string{"X", "1", "/a", "K", "\"s\"", "[X]", "_", "/number"}
 		for _, fsym := range fnSyms {
 			fsym := fsym
 			jobs = append(jobs, c10Job{"builtin-grid function " + fsym, func(probe func(kind, input string)) {
@@ -494,7 +494,7 @@ func c10Jobs(thorough bool) []c10Job {
 	// rule copying from one to the other (conformance is judged) and a union of both in one bound
 	{
 		var types []string
-		for _, ct := range []string{"fn:List", "fn:Pair", "fn:Map", "fn:Struct", "fn:Tuple", "fn:Union", "fn:Option", "fn:Fun", "fn:TaggedUnion", "fn:Singleton"} {
+		for _, ct := range []string{"fn:List", "fn:Pair", "fn:Map", "fn:Struct", "fn:Tuple", "fn:Union", "fn:Option", "fn:Fun", "fn:TaggedUnion", "fn:Singleton", "fn:Rel"} {
 			for _, al := range []string{"", "/number", "/a", "/number, /string", "/a, /number", "/number, /string, /string", "/a, /number, /b", "/a, /b, fn:Struct()", "/a, /b, fn:Struct(), /c, fn:Struct(/x, /number)", "/a, fn:List(/number)", "fn:Union(/number, /string, /a), fn:Union(/number, /string)"} {
 				types = append(types, ct+"("+al+")")
 			}
@@ -514,6 +514,31 @@ func c10Jobs(thorough bool) []c10Job {
 			}})
 		}
 	}
+	// (t) transform grid: every do / let chain over variables that the body binds (X), that only the head mentions (Y),
+	// that nothing mentions (Z), as group-by keys, as reducer arguments and as the variable a statement defines
+	jobs = append(jobs, c10Job{"transform grid", func(probe func(kind, input string)) {
+		keys := []string{"", "X", "Y", "Z", "X, Y", "X, Z", "X, X"}
+		defs := []string{"X", "Y", "Z", "C"}
+		reds := []string{"fn:count()", "fn:sum(X)", "fn:sum(Y)", "fn:sum(Z)", "fn:collect(X, Z)", "fn:max(C)"}
+		heads := []string{"foo(X)", "foo(Y)", "foo(X, C)", "foo(Y, C)", "foo(Z)", "foo(C)"}
+		bodies := []string{"bar(X)", "bar(W)", "bar(X), baz(X, Y)"}
+		for _, h := range heads {
+			for _, b := range bodies {
+				for _, k := range keys {
+					for _, d := range defs {
+						for _, rd := range reds {
+							pre := "bar(1). bar(2). baz(1, 5). baz(2, 5).\n"
+							probe("unit", pre+h+" :- "+b+" |> do fn:group_by("+k+"), let "+d+" = "+rd+".\n")
+							probe("unit", pre+h+" :- "+b+" |> let "+d+" = "+strings.Replace(strings.Replace(rd, "fn:count()", "fn:plus(X, 1)", 1), "fn:sum", "fn:list", 1)+".\n")
+							for _, d2 := range defs {
+								probe("unit", pre+h+" :- "+b+" |> do fn:group_by("+k+"), let "+d+" = "+rd+", let "+d2+" = fn:count().\n")
+							}
+						}
+					}
+				}
+			}
+		}
+	}})
 	// (f2) built-in functions applied to composite literals whose elements have different types (the type of such
 	// a literal is a union; type inference unifies unions of different widths)
 	{
@@ -748,6 +773,6 @@ func c10(r *rt.Run) {
 	})
 	r.Extra["states"] = r.Get("evaluations")
 	r.Finish("(a) every token string of length <= k over a 49-token alphabet (k=3 quick, 4 thorough) and k+1 over a 29-token alphabet, offered to Unit/Clause/Term/LiteralOrFormula/PredicateName/Atom/BaseTerm; " +
-		"(b) every single-token deletion/duplication/replacement, every truncation and byte substitution of 19 valid sources (examples/*.mg + 3 inline; the quick tier leaves out the 9 KB flow_checking.mg); (c) every string <= 4 over 10 characters through ast.Unescape; (f) a built-in grid: every built-in function with every argument list of length <=3 over 5 argument forms in head / equality / let / reducer position and every built-in predicate with every argument list of length <=3 over 7 forms, plain and negated, x declarations x facts; (g) a type-expression grid: 12 constructors x every argument list of length <=3 over 9 forms x 6 values; (g2) 8 variadic constructors x every argument list of length 4-5 (thorough 6) over 5 forms; (g3) every ordered pair of 115 type expressions as the bounds of two predicates that a rule joins, copies and unites; (f2) every built-in function over 1-2 composite literals with mixed element types; (h) extreme literals in 12 templates; (i) a merge-predicate grid (8x8x8 column choices x 4 merge-predicate declarations); (e) a declaration grid: arity 0-3 x every pair of 33 descriptor items x 13 bound/inclusion forms x 4 continuations; " +
+		"(b) every single-token deletion/duplication/replacement, every truncation and byte substitution of 19 valid sources (examples/*.mg + 3 inline; the quick tier leaves out the 9 KB flow_checking.mg); (c) every string <= 4 over 10 characters through ast.Unescape; (f) a built-in grid: every built-in function with every argument list of length <=3 over 5 argument forms in head / equality / let / reducer position and every built-in predicate with every argument list of length <=3 over 7 forms, plain and negated, x declarations x facts; (g) a type-expression grid: 12 constructors x every argument list of length <=3 over 9 forms x 6 values; (g2) 8 variadic constructors x every argument list of length 4-5 (thorough 6) over 5 forms; (g3) every ordered pair of 115 type expressions as the bounds of two predicates that a rule joins, copies and unites; (f2) every built-in function over 1-2 composite literals with mixed element types; (t) a transform grid: do / let chains whose keys, reducer arguments and defined variables range over variables the body binds, only the head mentions, nothing mentions (6 heads x 3 bodies x 7 keys x 4 x 6); (h) extreme literals in 12 templates; (i) a merge-predicate grid (8x8x8 column choices x 4 merge-predicate declarations); (e) a declaration grid: arity 0-3 x every pair of 33 descriptor items x 13 bound/inclusion forms x 4 continuations; " +
 		"(d) line deletions/duplications/blankings/replacements, digit replacements and truncations of 6 fact files, plain/gzip/zstd; units that parse go on to AnalyzeAndCheckBounds and EvalProgram under a fact limit; non-trivial = inputs that parse as a unit")
 }
